@@ -366,7 +366,8 @@ UNITS['dtor_is'] = {
 for al, short, e, props, label in (('DECOMMISSION', 'decom', 'd', ['C04', 'C14'], 'decommission'), ('ST_DTOR_BODY', 'stdtor', 's', ['C06', 'C14', 'C15'], 'sequence_type_dtor')):
     for part in ('iter', 'exit'):
         ob(name='dtor_is.%s.%s' % (label, part), kind='IS', props=props, unit='dtor_is', harness='h_dtor_is.c', entry='%s_%s' % (e, part), outline={al: short}, defines={'WANT_' + short.upper(): 1},
-           enforce='%s__%s' % (short, part), min_reach=1, bound='none: lists of any length (inductive step over the outlined loop of the real function)')
+           enforce='%s__%s' % (short, part), min_reach=1, bound='none: lists of any length (inductive step over the outlined loop of the real function)',
+           post_tags=({1: ['C15'], 2: ['C06', 'C14'], 3: ['C06', 'C14']} if (short, part) == ('stdtor', 'iter') else {1: ['C06', 'C15']} if (short, part) == ('stdtor', 'exit') else None))
 LEVELS['C04'] = 'proof'; LEVELS['C14'] = 'proof'
 
 UNITS['ract_fc'] = {
@@ -376,6 +377,7 @@ UNITS['ract_fc'] = {
     'stub_aliases': {'VS_SHB_CAN_BE_CALLED': r'^vs_.*sequence_handler_base13can_be_called', 'VS_SHB_RETIRE': r'^vs_.*sequence_handler_base6retireEv',
                      'VS_SHB_RETIRE_PRED': r'^vs_.*sequence_handler_base19retire_predecessors', 'VS_SHB_VALIDATE': r'^vs_.*sequence_handler_base8validate'},
 }
-ob(name='run_actions.decision_logic.contract', kind='FC', props=['C01', 'C03', 'C05', 'C07', 'C15', 'C16'], unit='ract_fc', harness='h_ract_fc.c', entry='f_init', outline={'RUN_ACTIONS': 'ract'}, enforce='ract__init', min_reach=5,
+ob(name='run_actions.decision_logic.contract', kind='FC', props=['C01', 'C03', 'C05', 'C06', 'C07', 'C08', 'C14', 'C15', 'C16'], unit='ract_fc', harness='h_ract_fc.c', entry='f_init', outline={'RUN_ACTIONS': 'ract'}, enforce='ract__init', min_reach=5,
+   post_tags={1: ['C01', 'C07', 'C15'], 2: ['C01', 'C05', 'C15'], 3: ['C01', 'C03'], 4: ['C05'], 5: ['C16'], 6: ['C14'], 7: ['C03', 'C05', 'C06'], 8: ['C03'], 9: ['C08']},
    allow_nobody=['vs_', 'vpx_'], bound='none: every state of an active expectation (free bounds and count), rings of any length in 6 alias shapes; the sequence handler\'s virtual calls are contract-only stubs')
 LEVELS['C01'] = 'proof'; LEVELS['C07'] = 'proof'
